@@ -375,7 +375,8 @@ func (r *Run) applyContract(st *State, fr *Frame, x *ssa.Call, callee *ssa.Funct
 			}
 		}
 	}
-	if freshResult && len(res.L) == 1 && res.L[0].Sort == SInt {
+	if freshResult && len(res.L) >= 1 && res.L[0].Sort == SInt {
+		// (for a struct result such as the C pointer (block, offset): its first component)
 		res.L[0] = st.freshRef()
 	}
 	r.assumeWF(st, res, cte)
